@@ -825,7 +825,18 @@ func arcUncertainty(s hc.Seg, scale float64) float64 {
 	// a short chord determines the direction to the centre only to (coordinate noise)/(chord length)
 	chord := math.Hypot(s.P0.X-s.End.X, s.P0.Y-s.End.Y)
 	dchord := 16 * 1.1e-16 * math.Max(scale, maxr) / math.Max(chord, 1e-300)
-	return maxr * math.Max(1, math.Sqrt(lam)) * (maxr / minr) * (df + math.Min(dchord, 1))
+	u := maxr * math.Max(1, math.Sqrt(lam)) * (maxr / minr) * (df + math.Min(dchord, 1))
+	// ellipseToCenter snaps the radicand sq = (1-lambda)/lambda to 0 when sq <= Epsilon (documented in the
+	// source: "Epsilon instead of 0.0 improves numerical stability"), i.e. it centres the arc on the chord
+	// midpoint; the exact SVG centre this oracle samples lies sqrt(sq)*|(rx*y1p/ry, ry*x1p/rx)| <=
+	// sqrt(sq)*maxr away. Both ellipses pass within ~1e-10 relative of the end points; the box of either is
+	// accepted (sweep seed 123: lambda = 1 - 8.5e-11, boxes differ by 1.0e-4).
+	if lam > 0 && lam <= 1 {
+		if sq := (1 - lam) / lam; sq <= 1.001*1e-10+4*noise {
+			u += math.Sqrt(sq) * math.Hypot(rx*y1p/ry, ry*x1p/rx) * 1.001
+		}
+	}
+	return u
 }
 
 type pathInfo struct {
